@@ -392,6 +392,7 @@ package netty
 //@   ensures single_write_bytes: implies(isBytes(message), nemitted() == 1 && evis(0, "Channel.Write1") && sameslice(evarg(0, 0), as(message, []byte)))
 //@   ensures single_write_vec: implies(isVec(message), nemitted() == 1 && evis(0, "Channel.Writev") && sameslice(evarg(0, 0), as(message, [][]byte)))
 //@   ensures single_write_buffer: implies(isBuf(message), as(message, *bytes.Buffer) != nil && nemitted() == 2 && evis(0, "(*bytes.Buffer).Bytes") && evarg(0, 0) == as(message, *bytes.Buffer) && evis(1, "Channel.Write1") && sameslice(evarg(1, 0), evres(0, 0)))
+//@   ensures writer_to_single_write@C09: implies(isWriterTo(message), is(message, *bytes.Reader) || is(message, *strings.Reader))
 //@   ensures writer_to: implies(isWriterTo(message), nemitted() == 2 && evis(0, "Channel.Writer") && evis(1, "io.WriterTo.WriteTo") && evrecv(1) == message && evarg(1, 0) == evres(0, 0))
 //@   ensures reader: implies(isReader(message), nemitted() == 1 && evis(0, "Channel.ReadFrom") && evarg(0, 0) == message)
 //@   ensures supported: isBytes(message) || isVec(message) || isBuf(message) || isWriterTo(message) || isReader(message)
@@ -434,7 +435,7 @@ package netty
 // The channel: write path (C01 C02 C06 C09 C10 C11 C18), lifecycle (C05), containment (C07).
 //
 // Shared state of a channel is touched only at *atomic points*, which appear as events in the
-// ghost trace: "select send c.writeQueue", "select recv c.writeQueue", "len c.writeQueue",
+// ghost trace: "send c.writeQueue", "recv c.writeQueue", "len c.writeQueue",
 // "cas c.running", "store c.running", "load c.running", "cas c.closed", "load c.closed",
 // "lock c.writeLock"/"unlock c.writeLock", and the calls on c.transport / c.executor / c.cancel.
 //@ property C01 C02 C05 C06 C07 C09 C10 C11 C12 C18
@@ -449,27 +450,29 @@ package netty
 //@ spec func chinv(c *channel) bool = c != nil && c.ctx != nil && c.transport != nil && c.executor != nil && c.cancel != nil && c.pipeline != nil
 //@ spec func asyncInv(c *channel) bool = chinv(c) && c.writeQueue != nil && cap(c.writeQueue) >= 1
 
+//@ property C01 C02 C09 C10 C11 C18
 //@ func (*channel).asyncWrite
 //@   inline
 //@   requires asyncInv(c) && ctx != nil && len(p) <= 1<<47
 //@   modifies ghost pooltyp, ghost chclosed, elems(uint8), cell([]byte), channel.running
-//@   ensures at_most_one_enqueue: count("select send c.writeQueue") <= 1
-//@   ensures enqueued_means_accepted: implies(count("select send c.writeQueue") == 1, result1 == nil && result0 == len(p))
-//@   ensures error_means_not_enqueued: implies(result1 != nil, count("select send c.writeQueue") == 0 && result0 == 0)
-//@   ensures success_means_enqueued: implies(result1 == nil && count("select recv c.ctx.Done()") == 0, count("select send c.writeQueue") == 1)
-//@   ensures snapshot: implies(count("select send c.writeQueue") == 1 && clone, evis(0, "pbytes.Get") && evis(2, "select send c.writeQueue") && at(2, len(evarg(2, 0)) == len(p) && arrof(evarg(2, 0)) == arrof(*evres(0, 0)) && arrof(evarg(2, 0)) != arrof(p) && seqeq(content(evarg(2, 0)), old(content(p)))))
-//@   ensures handoff: implies(count("select send c.writeQueue") == 1 && !clone, evis(1, "select send c.writeQueue") && sameslice(evarg(1, 0), p))
-//@   ensures kick_clone: implies(count("select send c.writeQueue") == 1 && clone, count("cas c.running") == 1 && evis(3, "cas c.running") && evarg(3, 0) == 0 && evarg(3, 1) == 1 && (count("Executor.Exec") == 1) == evres(3, 0))
-//@   ensures kick_noclone: implies(count("select send c.writeQueue") == 1 && !clone, count("cas c.running") == 1 && evis(2, "cas c.running") && evarg(2, 0) == 0 && evarg(2, 1) == 1 && (count("Executor.Exec") == 1) == evres(2, 0))
+//@   ensures at_most_one_enqueue: count("send c.writeQueue") <= 1
+//@   ensures enqueued_means_accepted: implies(count("send c.writeQueue") == 1, result1 == nil && result0 == len(p))
+//@   ensures error_means_not_enqueued: implies(result1 != nil, count("send c.writeQueue") == 0 && result0 == 0)
+//@   ensures success_means_enqueued: implies(result1 == nil && count("recv c.ctx.Done()") == 0, count("send c.writeQueue") == 1)
+//@   ensures snapshot: implies(count("send c.writeQueue") == 1 && clone, evis(0, "pbytes.Get") && evis(2, "send c.writeQueue") && at(2, len(evarg(2, 0)) == len(p) && arrof(evarg(2, 0)) == arrof(*evres(0, 0)) && arrof(evarg(2, 0)) != arrof(p) && seqeq(content(evarg(2, 0)), old(content(p)))))
+//@   ensures handoff: implies(count("send c.writeQueue") == 1 && !clone, evis(1, "send c.writeQueue") && sameslice(evarg(1, 0), p))
+//@   ensures kick_clone: implies(count("send c.writeQueue") == 1 && clone, count("cas c.running") == 1 && evis(3, "cas c.running") && evarg(3, 0) == 0 && evarg(3, 1) == 1 && (count("Executor.Exec") == 1) == evres(3, 0))
+//@   ensures kick_noclone: implies(count("send c.writeQueue") == 1 && !clone, count("cas c.running") == 1 && evis(2, "cas c.running") && evarg(2, 0) == 0 && evarg(2, 1) == 1 && (count("Executor.Exec") == 1) == evres(2, 0))
 //@   ensures kick_starts_sender: implies(count("Executor.Exec") == 1, evis(nemitted()-1, "Executor.Exec") && evrecv(nemitted()-1) == old(c.executor) && isbound(evarg(nemitted()-1, 0), "writeOnce", c))
-//@   ensures no_kick_without_enqueue: implies(count("select send c.writeQueue") == 0, count("cas c.running") == 0 && count("Executor.Exec") == 0)
+//@   ensures no_kick_without_enqueue: implies(count("send c.writeQueue") == 0, count("cas c.running") == 0 && count("Executor.Exec") == 0)
 //@   ensures mode: implies(old(c.untilWrite), count("select nonblocking") == 0) && implies(!old(c.untilWrite), count("select blocking") == 0) && count("select blocking") + count("select nonblocking") <= 1 && count("time.Sleep") == 0 && count("lock c.writeLock") == 0
-//@   ensures full_only_on_default: implies(count("select default") == 1, result1 == ErrAsyncNoSpace) && implies(result1 == ErrAsyncNoSpace && count("select recv c.ctx.Done()") == 0 && count("select recv ctx.Done()") == 0, count("select default") == 1)
-//@   ensures cancelled: implies(count("select recv ctx.Done()") == 1, result1 != nil && count("select send c.writeQueue") == 0)
-//@   ensures closed_branch_fails@C11: implies(count("select recv c.ctx.Done()") == 1, result1 != nil)
-//@   ensures closed_rejects@C11: implies(old(closedState(c)), result1 != nil && count("select send c.writeQueue") == 0)
+//@   ensures full_only_on_default: implies(count("select default") == 1, result1 == ErrAsyncNoSpace) && implies(result1 == ErrAsyncNoSpace && count("recv c.ctx.Done()") == 0 && count("recv ctx.Done()") == 0, count("select default") == 1)
+//@   ensures cancelled: implies(count("recv ctx.Done()") == 1, result1 != nil && count("send c.writeQueue") == 0)
+//@   ensures closed_branch_fails@C11: implies(count("recv c.ctx.Done()") == 1, result1 != nil)
+//@   ensures closed_rejects@C11: implies(old(closedState(c)), result1 != nil && count("send c.writeQueue") == 0)
 
 // asyncWritev: all buffers are merged into ONE packet (C09: a vectored message is one queue entry)
+//@ property C01 C02 C09 C10 C11 C18
 //@ func (*channel).asyncWritev
 //@   inline
 //@   requires asyncInv(c) && ctx != nil
@@ -477,19 +480,19 @@ package netty
 //@   loop 0 modifies elems(uint8)
 //@   loop 0 invariant 0 <= offset && offset <= cap(dataBuff) && fresh(dataBuff) && -1 <= rangeindex && rangeindex < len(p)
 //@   loop 0 decreases len(p) - rangeindex
-//@   ensures at_most_one_enqueue: count("select send c.writeQueue") <= 1
-//@   ensures enqueued_means_accepted: implies(count("select send c.writeQueue") == 1, result1 == nil)
-//@   ensures error_means_not_enqueued: implies(result1 != nil, count("select send c.writeQueue") == 0 && result0 == 0)
-//@   ensures success_means_enqueued: implies(result1 == nil && count("select recv c.ctx.Done()") == 0, count("select send c.writeQueue") == 1)
-//@   ensures one_fresh_packet: implies(count("select send c.writeQueue") == 1, evis(0, "pbytes.Get") && evis(2, "select send c.writeQueue") && at(2, arrof(evarg(2, 0)) == arrof(*evres(0, 0)) && fresh(evarg(2, 0))))
-//@   ensures kick: implies(count("select send c.writeQueue") == 1, count("cas c.running") == 1 && evis(3, "cas c.running") && evarg(3, 0) == 0 && evarg(3, 1) == 1 && (count("Executor.Exec") == 1) == evres(3, 0))
+//@   ensures at_most_one_enqueue: count("send c.writeQueue") <= 1
+//@   ensures enqueued_means_accepted: implies(count("send c.writeQueue") == 1, result1 == nil)
+//@   ensures error_means_not_enqueued: implies(result1 != nil, count("send c.writeQueue") == 0 && result0 == 0)
+//@   ensures success_means_enqueued: implies(result1 == nil && count("recv c.ctx.Done()") == 0, count("send c.writeQueue") == 1)
+//@   ensures one_fresh_packet: implies(count("send c.writeQueue") == 1, evis(0, "pbytes.Get") && evis(2, "send c.writeQueue") && at(2, arrof(evarg(2, 0)) == arrof(*evres(0, 0)) && fresh(evarg(2, 0))))
+//@   ensures kick: implies(count("send c.writeQueue") == 1, count("cas c.running") == 1 && evis(3, "cas c.running") && evarg(3, 0) == 0 && evarg(3, 1) == 1 && (count("Executor.Exec") == 1) == evres(3, 0))
 //@   ensures kick_starts_sender: implies(count("Executor.Exec") == 1, evis(nemitted()-1, "Executor.Exec") && evrecv(nemitted()-1) == old(c.executor) && isbound(evarg(nemitted()-1, 0), "writeOnce", c))
-//@   ensures no_kick_without_enqueue: implies(count("select send c.writeQueue") == 0, count("cas c.running") == 0 && count("Executor.Exec") == 0)
+//@   ensures no_kick_without_enqueue: implies(count("send c.writeQueue") == 0, count("cas c.running") == 0 && count("Executor.Exec") == 0)
 //@   ensures mode: implies(old(c.untilWrite), count("select nonblocking") == 0) && implies(!old(c.untilWrite), count("select blocking") == 0) && count("select blocking") + count("select nonblocking") <= 1 && count("time.Sleep") == 0 && count("lock c.writeLock") == 0
 //@   ensures full_only_on_default: implies(count("select default") == 1, result1 == ErrAsyncNoSpace)
-//@   ensures cancelled: implies(count("select recv ctx.Done()") == 1, result1 != nil && count("select send c.writeQueue") == 0)
-//@   ensures closed_branch_fails@C11: implies(count("select recv c.ctx.Done()") == 1, result1 != nil)
-//@   ensures closed_rejects@C11: implies(old(closedState(c)), result1 != nil && count("select send c.writeQueue") == 0)
+//@   ensures cancelled: implies(count("recv ctx.Done()") == 1, result1 != nil && count("send c.writeQueue") == 0)
+//@   ensures closed_branch_fails@C11: implies(count("recv c.ctx.Done()") == 1, result1 != nil)
+//@   ensures closed_rejects@C11: implies(old(closedState(c)), result1 != nil && count("send c.writeQueue") == 0)
 
 // events enter the pipeline through these (the concrete *pipeline methods are verified above);
 // handlers behind them are arbitrary code: may panic, may modify anything but pipeline/context/
@@ -515,11 +518,14 @@ package netty
 //@   modifies all
 //@   preserves handlerContext.*, pipeline.*, ghost node, ghost pos, channel.ctx, channel.cancel, channel.transport, channel.executor, channel.pipeline, channel.writeQueue, channel.untilWrite, channel.writeBuffers, channel.recycleBuffers, channel.id, channel.closed
 
+//@ property C05 C07 C11
 //@ func (*channel).invokeMethod
 //@   inline
+//@ property C05 C11
 //@ func (*channel).IsActive
 //@   inline
 
+//@ property C05 C06 C07 C13
 //@ func (*channel).Close
 //@   event
 //@   mode intwrap
@@ -543,6 +549,7 @@ package netty
 // The background sender. One activation owns the sender token (running == 1) from its start
 // until it stores idle; it drains the queue in FIFO batches.
 //@ spec func bufInv(c *channel) bool = c.writeBuffers != nil && c.recycleBuffers != nil && cap(c.writeBuffers) == cap(c.recycleBuffers) && cap(c.writeBuffers) >= 1 && arrof(c.writeBuffers) != arrof(c.recycleBuffers) && cap(c.writeBuffers) == cap(c.writeQueue)/2 + 1
+//@ property C01 C02 C06 C07 C10 C18
 //@ func (*channel).writeOnce
 //@   requires asyncInv(c) && bufInv(c)
 //@   modifies all
@@ -557,7 +564,7 @@ package netty
 //@   loop 1 emits
 //@   loop 1 invariant shape: len(sendBuffers) == len(recycleBuffers) && len(sendBuffers) <= cap(sendBuffers) && cap(sendBuffers) == cap(c.writeBuffers) && cap(recycleBuffers) == cap(c.recycleBuffers) && arrof(sendBuffers) == arrof(c.writeBuffers) && arrof(recycleBuffers) == arrof(c.recycleBuffers) && sendBuffers != nil && recycleBuffers != nil
 //@   loop 1 invariant pairs: forall(k, 0, len(sendBuffers), sameslice(sendBuffers[k], recycleBuffers[k]))
-//@   loop 1 invariant one_packet_per_iteration: implies(nemitted() > 0, nemitted() == 2 && evis(0, "select nonblocking") && evis(1, "select recv c.writeQueue") && len(sendBuffers) >= 1 && sameslice(sendBuffers[len(sendBuffers)-1], evres(1, 0)))
+//@   loop 1 invariant one_packet_per_iteration: implies(nemitted() > 0, nemitted() == 2 && evis(0, "select nonblocking") && evis(1, "recv c.writeQueue") && len(sendBuffers) >= 1 && sameslice(sendBuffers[len(sendBuffers)-1], evres(1, 0)))
 //@   loop 1 decreases cap(sendBuffers) - len(sendBuffers)
 //@   loop 2 modifies elems([]byte), ghost pooltyp, cell([]byte)
 //@   loop 2 emits
@@ -573,66 +580,76 @@ package netty
 
 // ---------------------------------------------------------------------------
 // low-level write entry points
+//@ property C01 C09 C11 C18
 //@ func (*channel).write1
 //@   event
 //@   requires chinv(c) && implies(c.writeQueue != nil, cap(c.writeQueue) >= 1) && len(p) <= 1<<47
 //@   modifies ghost pooltyp, ghost chclosed, elems(uint8), cell([]byte), channel.running
-//@   ensures at_most_one_enqueue: count("select send c.writeQueue") <= 1
+//@   ensures at_most_one_enqueue: count("send c.writeQueue") <= 1
 //@   ensures async_never_touches_transport: implies(old(c.writeQueue) != nil, count("net.Conn.Write") == 0 && count("Transport.Flush") == 0 && count("lock c.writeLock") == 0)
-//@   ensures sync_never_enqueues: implies(old(c.writeQueue) == nil, count("select send c.writeQueue") == 0 && count("cas c.running") == 0)
-//@   ensures error_means_not_enqueued: implies(err != nil, count("select send c.writeQueue") == 0)
-//@   ensures async_success_means_enqueued: implies(old(c.writeQueue) != nil && err == nil && count("select recv c.ctx.Done()") == 0 && old(c.closeErr) == nil, count("select send c.writeQueue") == 1)
+//@   ensures sync_never_enqueues: implies(old(c.writeQueue) == nil, count("send c.writeQueue") == 0 && count("cas c.running") == 0)
+//@   ensures error_means_not_enqueued: implies(err != nil, count("send c.writeQueue") == 0)
+//@   ensures async_success_means_enqueued: implies(old(c.writeQueue) != nil && err == nil && count("recv c.ctx.Done()") == 0 && old(c.closeErr) == nil, count("send c.writeQueue") == 1)
 //@   ensures sync_locked_write_then_flush: implies(old(c.writeQueue) == nil && count("net.Conn.Write") == 1, evis(0, "lock c.writeLock") && evrecv(first("net.Conn.Write")) == old(c.transport) && sameslice(evarg(first("net.Conn.Write"), 0), p) && count("unlock c.writeLock") == 1 && evis(nemitted()-1, "unlock c.writeLock") && count("lock c.writeLock") == 1)
 //@   ensures sync_flush_iff_written: implies(old(c.writeQueue) == nil && count("net.Conn.Write") == 1, (count("Transport.Flush") == 1) == (evres(first("net.Conn.Write"), 1) == nil) && implies(count("Transport.Flush") == 1, first("Transport.Flush") > first("net.Conn.Write") && first("Transport.Flush") < last("unlock c.writeLock")))
 //@   ensures sync_result: implies(old(c.writeQueue) == nil && count("net.Conn.Write") == 1 && count("Transport.Flush") == 0, err == evres(first("net.Conn.Write"), 1)) && implies(count("Transport.Flush") == 1, err == evres(first("Transport.Flush"), 0))
-//@   ensures closed_rejects@C11: implies(old(closedState(c)), err != nil && count("select send c.writeQueue") == 0)
+//@   ensures closed_rejects@C11: implies(old(closedState(c)), err != nil && count("send c.writeQueue") == 0)
+//@ property C01 C09 C11 C18
 //@ func (*channel).Writev
 //@   requires chinv(c) && implies(c.writeQueue != nil, cap(c.writeQueue) >= 1)
 //@   modifies ghost pooltyp, ghost chclosed, elems(uint8), cell([]byte), channel.running
-//@   ensures at_most_one_enqueue: count("select send c.writeQueue") <= 1
+//@   ensures at_most_one_enqueue: count("send c.writeQueue") <= 1
 //@   ensures async_never_touches_transport: implies(old(c.writeQueue) != nil, count("BuffersWriter.Writev") == 0 && count("Transport.Flush") == 0 && count("lock c.writeLock") == 0)
-//@   ensures sync_never_enqueues: implies(old(c.writeQueue) == nil, count("select send c.writeQueue") == 0 && count("cas c.running") == 0)
-//@   ensures error_means_not_enqueued: implies(err != nil, count("select send c.writeQueue") == 0)
-//@   ensures async_success_means_enqueued: implies(old(c.writeQueue) != nil && err == nil && count("select recv c.ctx.Done()") == 0 && old(c.closeErr) == nil, count("select send c.writeQueue") == 1)
+//@   ensures sync_never_enqueues: implies(old(c.writeQueue) == nil, count("send c.writeQueue") == 0 && count("cas c.running") == 0)
+//@   ensures error_means_not_enqueued: implies(err != nil, count("send c.writeQueue") == 0)
+//@   ensures async_success_means_enqueued: implies(old(c.writeQueue) != nil && err == nil && count("recv c.ctx.Done()") == 0 && old(c.closeErr) == nil, count("send c.writeQueue") == 1)
 //@   ensures sync_locked_write_then_flush: implies(old(c.writeQueue) == nil && count("BuffersWriter.Writev") == 1, evis(0, "lock c.writeLock") && evrecv(first("BuffersWriter.Writev")) == old(c.transport) && sameslice(evarg(first("BuffersWriter.Writev"), 0), p) && count("unlock c.writeLock") == 1 && evis(nemitted()-1, "unlock c.writeLock") && count("lock c.writeLock") == 1)
 //@   ensures sync_flush_iff_written: implies(old(c.writeQueue) == nil && count("BuffersWriter.Writev") == 1, (count("Transport.Flush") == 1) == (evres(first("BuffersWriter.Writev"), 1) == nil) && implies(count("Transport.Flush") == 1, first("Transport.Flush") > first("BuffersWriter.Writev") && first("Transport.Flush") < last("unlock c.writeLock")))
 //@   ensures sync_result: implies(old(c.writeQueue) == nil && count("BuffersWriter.Writev") == 1 && count("Transport.Flush") == 0, err == evres(first("BuffersWriter.Writev"), 1)) && implies(count("Transport.Flush") == 1, err == evres(first("Transport.Flush"), 0))
-//@   ensures closed_rejects@C11: implies(old(closedState(c)), err != nil && count("select send c.writeQueue") == 0)
+//@   ensures closed_rejects@C11: implies(old(closedState(c)), err != nil && count("send c.writeQueue") == 0)
+//@ property C01 C09 C11 C18
 //@ func (*channel).CtxWrite1
 //@   requires chinv(c) && implies(c.writeQueue != nil, cap(c.writeQueue) >= 1) && ctx != nil && len(p) <= 1<<47
 //@   modifies ghost pooltyp, ghost chclosed, elems(uint8), cell([]byte), channel.running
-//@   ensures at_most_one_enqueue: count("select send c.writeQueue") <= 1
+//@   ensures listens_to_caller_context: implies(count("select blocking") + count("select nonblocking") == 1, evarg(first("select blocking") + first("select nonblocking") + 1, 0) == ctxdone(ctx) && evarg(first("select blocking") + first("select nonblocking") + 1, 1) == ctxdone(old(c.ctx)) && evarg(first("select blocking") + first("select nonblocking") + 1, 2) == old(c.writeQueue))
+//@   ensures at_most_one_enqueue: count("send c.writeQueue") <= 1
 //@   ensures async_never_touches_transport: implies(old(c.writeQueue) != nil, count("net.Conn.Write") == 0 && count("Transport.Flush") == 0 && count("lock c.writeLock") == 0)
-//@   ensures sync_never_enqueues: implies(old(c.writeQueue) == nil, count("select send c.writeQueue") == 0 && count("cas c.running") == 0)
-//@   ensures error_means_not_enqueued: implies(err != nil, count("select send c.writeQueue") == 0)
-//@   ensures async_success_means_enqueued: implies(old(c.writeQueue) != nil && err == nil && count("select recv c.ctx.Done()") == 0 && old(c.closeErr) == nil, count("select send c.writeQueue") == 1)
+//@   ensures sync_never_enqueues: implies(old(c.writeQueue) == nil, count("send c.writeQueue") == 0 && count("cas c.running") == 0)
+//@   ensures error_means_not_enqueued: implies(err != nil, count("send c.writeQueue") == 0)
+//@   ensures async_success_means_enqueued: implies(old(c.writeQueue) != nil && err == nil && count("recv c.ctx.Done()") == 0 && old(c.closeErr) == nil, count("send c.writeQueue") == 1)
 //@   ensures sync_locked_write_then_flush: implies(old(c.writeQueue) == nil && count("net.Conn.Write") == 1, evis(0, "lock c.writeLock") && evrecv(first("net.Conn.Write")) == old(c.transport) && sameslice(evarg(first("net.Conn.Write"), 0), p) && count("unlock c.writeLock") == 1 && evis(nemitted()-1, "unlock c.writeLock") && count("lock c.writeLock") == 1)
 //@   ensures sync_flush_iff_written: implies(old(c.writeQueue) == nil && count("net.Conn.Write") == 1, (count("Transport.Flush") == 1) == (evres(first("net.Conn.Write"), 1) == nil) && implies(count("Transport.Flush") == 1, first("Transport.Flush") > first("net.Conn.Write") && first("Transport.Flush") < last("unlock c.writeLock")))
 //@   ensures sync_result: implies(old(c.writeQueue) == nil && count("net.Conn.Write") == 1 && count("Transport.Flush") == 0, err == evres(first("net.Conn.Write"), 1)) && implies(count("Transport.Flush") == 1, err == evres(first("Transport.Flush"), 0))
-//@   ensures closed_rejects@C11: implies(old(closedState(c)), err != nil && count("select send c.writeQueue") == 0)
+//@   ensures closed_rejects@C11: implies(old(closedState(c)), err != nil && count("send c.writeQueue") == 0)
+//@ property C01 C09 C11 C18
 //@ func (*channel).CtxWritev
 //@   requires chinv(c) && implies(c.writeQueue != nil, cap(c.writeQueue) >= 1) && ctx != nil
 //@   modifies ghost pooltyp, ghost chclosed, elems(uint8), cell([]byte), channel.running
-//@   ensures at_most_one_enqueue: count("select send c.writeQueue") <= 1
+//@   ensures listens_to_caller_context: implies(count("select blocking") + count("select nonblocking") == 1, evarg(first("select blocking") + first("select nonblocking") + 1, 0) == ctxdone(ctx) && evarg(first("select blocking") + first("select nonblocking") + 1, 1) == ctxdone(old(c.ctx)) && evarg(first("select blocking") + first("select nonblocking") + 1, 2) == old(c.writeQueue))
+//@   ensures at_most_one_enqueue: count("send c.writeQueue") <= 1
 //@   ensures async_never_touches_transport: implies(old(c.writeQueue) != nil, count("BuffersWriter.Writev") == 0 && count("Transport.Flush") == 0 && count("lock c.writeLock") == 0)
-//@   ensures sync_never_enqueues: implies(old(c.writeQueue) == nil, count("select send c.writeQueue") == 0 && count("cas c.running") == 0)
-//@   ensures error_means_not_enqueued: implies(err != nil, count("select send c.writeQueue") == 0)
-//@   ensures async_success_means_enqueued: implies(old(c.writeQueue) != nil && err == nil && count("select recv c.ctx.Done()") == 0 && old(c.closeErr) == nil, count("select send c.writeQueue") == 1)
+//@   ensures sync_never_enqueues: implies(old(c.writeQueue) == nil, count("send c.writeQueue") == 0 && count("cas c.running") == 0)
+//@   ensures error_means_not_enqueued: implies(err != nil, count("send c.writeQueue") == 0)
+//@   ensures async_success_means_enqueued: implies(old(c.writeQueue) != nil && err == nil && count("recv c.ctx.Done()") == 0 && old(c.closeErr) == nil, count("send c.writeQueue") == 1)
 //@   ensures sync_locked_write_then_flush: implies(old(c.writeQueue) == nil && count("BuffersWriter.Writev") == 1, evis(0, "lock c.writeLock") && evrecv(first("BuffersWriter.Writev")) == old(c.transport) && sameslice(evarg(first("BuffersWriter.Writev"), 0), pv) && count("unlock c.writeLock") == 1 && evis(nemitted()-1, "unlock c.writeLock") && count("lock c.writeLock") == 1)
 //@   ensures sync_flush_iff_written: implies(old(c.writeQueue) == nil && count("BuffersWriter.Writev") == 1, (count("Transport.Flush") == 1) == (evres(first("BuffersWriter.Writev"), 1) == nil) && implies(count("Transport.Flush") == 1, first("Transport.Flush") > first("BuffersWriter.Writev") && first("Transport.Flush") < last("unlock c.writeLock")))
 //@   ensures sync_result: implies(old(c.writeQueue) == nil && count("BuffersWriter.Writev") == 1 && count("Transport.Flush") == 0, err == evres(first("BuffersWriter.Writev"), 1)) && implies(count("Transport.Flush") == 1, err == evres(first("Transport.Flush"), 0))
-//@   ensures closed_rejects@C11: implies(old(closedState(c)), err != nil && count("select send c.writeQueue") == 0)
+//@   ensures closed_rejects@C11: implies(old(closedState(c)), err != nil && count("send c.writeQueue") == 0)
+//@ property C01 C09 C11 C18 C14
 //@ func (*channel).Write1
 //@   inline
+//@ property C01 C14
 //@ func (*channel).Writer
 //@   requires c != nil
 //@   ensures is(result, channelWriter) && as(result, channelWriter).channel == c
+//@ property C01 C14
 //@ func (channelWriter).Write
 //@   requires c.channel != nil
 //@   may_panic true
 //@   ensures delegates: nemitted() == 1 && evis(0, "Channel.Write1") && evrecv(0) == c.channel && sameslice(evarg(0, 0), p) && n == evres(0, 0) && err == evres(0, 1)
 
 // Write / Trigger: pipeline entry points; a panic in any handler never escapes (C07)
+//@ property C05 C07 C11
 //@ func (*channel).Write
 //@   requires chinv(c)
 //@   modifies all
@@ -641,6 +658,7 @@ package netty
 //@   ensures inactive_fails: implies(count("recv c.ctx.Done()") == 1, count("Pipeline.FireChannelWrite") == 0 && evres(0, 0) != 0)
 //@   ensures exception_at_most_once: count("Pipeline.FireChannelException") <= 1 && implies(count("Pipeline.FireChannelException") == 1, first("Pipeline.FireChannelException") > first("Pipeline.FireChannelWrite"))
 //@   ensures closed_rejects@C11: implies(old(closedState(c)), result != nil && count("Pipeline.FireChannelWrite") == 0)
+//@ property C07
 //@ func (*channel).Trigger
 //@   requires chinv(c)
 //@   modifies all
@@ -655,6 +673,7 @@ package netty
 //@   modifies all
 //@   preserves handlerContext.*, pipeline.*, ghost node, ghost pos, channel.ctx, channel.cancel, channel.transport, channel.executor, channel.pipeline, channel.writeQueue, channel.untilWrite, channel.writeBuffers, channel.recycleBuffers, channel.id, channel.closed
 
+//@ property C05 C13 C18 C01
 //@ func newChannelWith
 //@   requires ctx != nil && writeQueueSize <= 1<<40
 //@   ensures is(result, *channel) && fresh(as(result, *channel)) && as(result, *channel) != nil
@@ -663,6 +682,7 @@ package netty
 //@   ensures async: implies(writeQueueSize > 0, as(result, *channel).writeQueue != nil && cap(as(result, *channel).writeQueue) == writeQueueSize && bufInv(as(result, *channel)) && len(as(result, *channel).writeBuffers) == 0 && len(as(result, *channel).recycleBuffers) == 0)
 //@   ensures sync: implies(writeQueueSize <= 0, as(result, *channel).writeQueue == nil)
 
+//@ property C05 C07 C13
 //@ func (*channel).readLoop
 //@   requires chinv(c) && done != nil
 //@   modifies all
@@ -673,8 +693,9 @@ package netty
 //@   loop 0 invariant chinv(c)
 //@   loop 0 invariant one_read_per_iteration: implies(nemitted() > 0, evis(0, "select nonblocking") && evis(1, "select default") && evis(2, "Pipeline.FireChannelRead") && evrecv(2) == c.pipeline && evarg(2, 0) == c.transport && count("Pipeline.FireChannelRead") == 1 && count("Pipeline.FireChannelActive") == 0 && count("Pipeline.FireChannelException") <= 1)
 //@   ensures exits_through_close: evis(nemitted()-1, "netty.channel.Close") && evarg(nemitted()-1, 0) == c
-//@   ensures stops_when_cancelled: implies(count("select nonblocking") >= 1, evis(nemitted()-2, "select recv c.ctx.Done()"))
+//@   ensures stops_when_cancelled: implies(count("select nonblocking") >= 1, evis(nemitted()-2, "recv c.ctx.Done()"))
 //@ order (*channel).readLoop: "readLoop$2" dominates "invokeMethod"
+//@ property C05 C13
 //@ func (*channel).serveChannel
 //@   requires chinv(c)
 //@   may_panic true
@@ -684,6 +705,7 @@ package netty
 
 // ReadFrom streams a reader in 1024-byte chunks, each handed to write1 exactly once, in order (C14).
 // (Each chunk is a separate low-level write: that is the known C09 finding for reader-typed messages.)
+//@ property C14 C09 C10 C11
 //@ property C14 C09 C10 C11
 //@ func (*channel).ReadFrom
 //@   requires chinv(c) && implies(c.writeQueue != nil, cap(c.writeQueue) >= 1) && r != nil && rwf(r)
@@ -695,6 +717,7 @@ package netty
 //@   loop 0 invariant cfg: chinv(c) && implies(c.writeQueue != nil, cap(c.writeQueue) >= 1) && rwf(r)
 //@   loop 0 invariant progress: n == rpos(r) - old(rpos(r)) && n >= 0
 //@   loop 0 invariant each_chunk_written_once: implies(nemitted() > 0, evis(0, "pbytes.Get") && count("netty.channel.write1") <= 1 && implies(count("netty.channel.write1") == 1, evarg(last("netty.channel.write1"), 2) == false))
+//@   loop 0 invariant single_write@C09: count("netty.channel.write1") == 0
 //@   loop 0 invariant chunk_is_what_was_read: implies(count("netty.channel.write1") == 1, at(last("netty.channel.write1"), len(evarg(last("netty.channel.write1"), 1)) >= 1 && seqeq(content(evarg(last("netty.channel.write1"), 1)), subseq(rdata(r), rpos(r) - len(evarg(last("netty.channel.write1"), 1)), len(evarg(last("netty.channel.write1"), 1)))) && rpos(r) - len(evarg(last("netty.channel.write1"), 1)) - old(rpos(r)) == n - len(evarg(last("netty.channel.write1"), 1))))
 //@   ensures last_chunk_is_what_was_read: implies(count("netty.channel.write1") == 1, at(last("netty.channel.write1"), len(evarg(last("netty.channel.write1"), 1)) >= 1 && seqeq(content(evarg(last("netty.channel.write1"), 1)), subseq(rdata(r), rpos(r) - len(evarg(last("netty.channel.write1"), 1)), len(evarg(last("netty.channel.write1"), 1))))))
 //@   ensures all_read: implies(err == nil, rpos(r) == rend(r))
@@ -725,3 +748,8 @@ package netty
 //@ lemma close_after_empty_then_idle(q int, run int, kick int, rc int, b int, u bool, failed bool) implies(INV(q, run, kick, rc, b, u, failed) && q == 0 && run == 0 && !failed, b == 0 && !u)
 // the variants a sender without re-check / without flush would need are NOT invariant-preserving:
 // (kept as documentation of why the code's re-check and flush are necessary; see selftest mutants)
+
+// C10: ReadFrom relinquishes the pooled chunk to the queue: after handing it to write1 it never
+// touches it again (it obtains a new one in the next iteration)
+//@ property C10
+//@ nouse (*channel).ReadFrom: after "write1" argument 1
